@@ -109,13 +109,28 @@ def case(args):
                     _APP.sql('delete from traits where name = ?', (n,))
                 _MODEL.send({'cmd': 'drop_std', 'rcs': drop_rc, 'traits': drop_t})
                 reps = rng.choice([1, 1, 2])
+                failed_first = None
                 for _ in range(reps):
                     trait._TRAITS_SYNCED = False
                     resource_class._RESOURCE_CLASSES_SYNCED = False
+                    if rng.random() < 0.3:
+                        # a start-up that FAILS (the database connection is lost at some statement of the
+                        # synchronisation), followed by the next start-up in the same interpreter - as a WSGI container
+                        # does when the application factory raised.  The second one must complete the job.
+                        from harness import faults
+                        failed_first = rng.randrange(0, 12)
+                        try:
+                            with faults.FailAt(_APP.engine, failed_first) as fa:
+                                deploy.update_database(_APP.conf)
+                        except Exception:
+                            pass
+                        if not fa.fired:
+                            failed_first = None
                     deploy.update_database(_APP.conf)
                     _MODEL.send({'cmd': 'sync'})
                 out['syncs'] += reps
-                op = {'op': 'sync', 'dropped_rcs': len(drop_rc), 'dropped_traits': len(drop_t), 'repeated': reps}
+                op = {'op': 'sync', 'dropped_rcs': len(drop_rc), 'dropped_traits': len(drop_t), 'repeated': reps,
+                      'first_start_failed_at_statement': failed_first}
                 hist.append(op)
                 rcs, traits = std_tables(_APP)
                 if [r[0] for r in rcs] != sorted(STD_RCS) or any(i != STD_RCS.index(n) for n, i in rcs):
